@@ -261,7 +261,7 @@ def setup(ctx):
     ctx.zygote = None
     ctx.sweepP = None
     ctx.fresh_spawned = 0
-    ctx.fresh_budget = ctx.scale(0, 1500)
+    ctx.fresh_budget = ctx.scale(0, 150)
     ctx.pristine = SqParser()
 
 
